@@ -78,27 +78,43 @@ func main() {
 
 func run(p *rules.Property, repo, tier, verif string, seed int) int {
 	cmdline := strings.Join(os.Args, " ")
-	c, err := core.Load(repo, tier, tier == "thorough")
-	if err != nil {
-		// nothing could be decided: that is a failure of the check
-		c = &core.Ctx{Repo: repo, Tier: tier, RuleDocs: map[string]string{}, Floors: map[string]int{}, LoadStats: map[string]int{}}
+	known, kerr := core.LoadKnown(filepath.Join(verif, "known_findings.txt"))
+	analyse := func(label string, env ...string) *core.Ctx {
+		c, err := core.Load(repo, tier, false, env...)
+		if err != nil {
+			// nothing could be decided: that is a failure of the check
+			c = &core.Ctx{Repo: repo, Tier: tier, RuleDocs: map[string]string{}, Floors: map[string]int{}, LoadStats: map[string]int{}}
+			c.Property = p.ID
+			c.Undecided("load", "repository", 0, err.Error())
+			return c
+		}
 		c.Property = p.ID
-		c.Undecided("load", "repository", 0, err.Error())
-		return c.Finish(verif, seed, p.Explanation, p.Assumptions, cmdline)
+		func() {
+			defer func() {
+				if r := recover(); r != nil {
+					c.Undecided("panic", "analyser", 0, fmt.Sprintf("%v\n%s", r, debug.Stack()))
+				}
+			}()
+			p.Run(c)
+		}()
+		return c
 	}
-	c.Property = p.ID
-	known, err := core.LoadKnown(filepath.Join(verif, "known_findings.txt"))
-	if err != nil {
-		c.Undecided("load", "known_findings.txt", 0, err.Error())
+	c := analyse("default")
+	if kerr != nil {
+		c.Undecided("load", "known_findings.txt", 0, kerr.Error())
 	}
 	c.Known = known
-	func() {
-		defer func() {
-			if r := recover(); r != nil {
-				c.Undecided("panic", "analyser", 0, fmt.Sprintf("%v\n%s", r, debug.Stack()))
-			}
-		}()
-		p.Run(c)
-	}()
+	if tier == "thorough" {
+		// the same rules over the other build configurations the repository
+		// compiles for: a 32-bit target (int is 32 bits: the signedness rules
+		// of C07/C12 see more narrowing) and another operating system (files
+		// selected by build constraints differ)
+		for _, cfg := range [][3]string{{"linux/386", "GOOS=linux", "GOARCH=386"}, {"darwin/arm64", "GOOS=darwin", "GOARCH=arm64"}} {
+			o := analyse(cfg[0], cfg[1], cfg[2], "CGO_ENABLED=0")
+			c.Merge(o, cfg[0])
+			o = nil
+			debug.FreeOSMemory()
+		}
+	}
 	return c.Finish(verif, seed, p.Explanation, p.Assumptions, cmdline)
 }
